@@ -71,6 +71,9 @@ def run(ctx):
         "the library acceptor's application loop in the driver mirrors storescp's (reply A-RELEASE-RP and stop, stop on "
         "A-ABORT / error); the real storescp loop is exercised through the binary",
         "the library peers are driven through the sync API and, with the same schedules, through the async API",
+        "in the sync library runs every second releasing requestor releases through the public `&mut` route (deprecated "
+        "client::Release trait, association value kept alive) and then tries a send(PData) on the released association; "
+        "P-DATA from a peer after its own completed release has no action in the model",
         "against storescp some requestors are scripts that take the A-RELEASE-RP, keep the socket open and send a C-ECHO-RQ "
         "or a complete C-STORE (named misuse actions of AssocImpl, requestor side only); the acceptor has no action that "
         "writes P-DATA after its own A-RELEASE-RP, so any response is rejected",
@@ -116,6 +119,10 @@ def run(ctx):
             ctx.cov["evaluations"] += rep["cases"]
             ctx.cov["distinct_nontrivial"] += rep["distinct_wire_interleavings"]
             ctx.extra_cov["wire_interleavings_%s_api" % api] = rep["distinct_wire_interleavings"]
+            if api == "sync":
+                if rep["release_by_mut_route"] == 0:
+                    raise vlib.ToolError("vacuity: no schedule released through the &mut route")
+                ctx.extra_cov["releases_through_mut_route_with_late_send"] = rep["release_by_mut_route"]
             cases += rep["cases"]
             events += rep["events"]
             allf.write(open(t).read())
